@@ -43,9 +43,12 @@ COS = z3.Function("cos", RS, RS)
 ATAN2 = z3.Function("atan2", RS, RS, RS)
 ASIN = z3.Function("asin", RS, RS)
 ACOS = z3.Function("acos", RS, RS)
+HYP = z3.Function("hypot3", RS, RS, RS, RS)  # hypot(x, y) = hypot3(x, y, 0)
 
 
 def rz(v):
+    if isinstance(v, z3.ExprRef):
+        return z3.ToReal(v) if z3.is_int(v) else v
     return toz3(v, want_real=True)
 
 
@@ -69,7 +72,16 @@ def _axioms():
     v = (x, y, z)
     A = lambda rot, vec: tuple(f(rot, *vec) for f in AP)
     eq3 = lambda p, q: z3.And(*[p[i] == q[i] for i in range(3)])
-    fa = lambda vs, body, pats=None: z3.ForAll(vs, body, patterns=pats) if pats else z3.ForAll(vs, body)
+    counter = [0]
+
+    def fa(vs, body, pats=None):
+        if pats:
+            return z3.ForAll(vs, body, patterns=pats)
+        # lemma-style axiom (its natural trigger would be a non-linear term): never instantiated by E-matching --
+        # the trigger is a marker symbol that occurs nowhere else; contracts instantiate it explicitly with `instance`
+        counter[0] += 1
+        mark = z3.Function(f"only_explicit_instances!{counter[0]}", *[v.sort() for v in vs], z3.BoolSort())
+        return z3.ForAll(vs, body, patterns=[mark(*vs)])
     ax = {}
     # ---- scipy Rotation as a group acting on R^3 (trusted algebra, DESIGN.md C07)
     g = ax.setdefault("rot", [])
@@ -152,6 +164,37 @@ def _axioms():
     g.append(("A2.sin_cos_half_shift", fa([a], z3.And(SIN(a + PI) == -SIN(a), COS(a + PI) == -COS(a), SIN(a - PI) == -SIN(a), COS(a - PI) == -COS(a)))))
     g.append(("A2.sin_cos_periodic", fa([a, c], z3.Implies(c == z3.ToReal(z3.ToInt(c)), z3.And(SIN(a + TAU * c) == SIN(a), COS(a + TAU * c) == COS(a))))))
     g.append(("A2.angle_sum", fa([a, b], z3.And(SIN(a + b) == SIN(a) * COS(b) + COS(a) * SIN(b), COS(a + b) == COS(a) * COS(b) - SIN(a) * SIN(b)))))
+    g = ax.setdefault("atan2.rotate", [])
+    g.append(
+        (
+            "A2.atan2_of_rotated_vector",
+            fa([a, x, y], z3.Implies(z3.Or(x != 0, y != 0), z3.ToReal(z3.ToInt((ATAN2(SIN(a) * x + COS(a) * y, COS(a) * x - SIN(a) * y) - ATAN2(y, x) - a) / TAU)) == (ATAN2(SIN(a) * x + COS(a) * y, COS(a) * x - SIN(a) * y) - ATAN2(y, x) - a) / TAU)),
+        )
+    )
+    g.append(
+        (
+            "A2.planar_rotation_fixes_only_the_zero_vector",
+            fa([a, x, y], z3.And(COS(a) * x - SIN(a) * y == 0, SIN(a) * x + COS(a) * y == 0) == z3.And(x == 0, y == 0)),
+        )
+    )
+    g = ax.setdefault("atan2.yaw", [])
+    ya, xa = AP[1](EULER(a, 0, 0), x, y, z), AP[0](EULER(a, 0, 0), x, y, z)
+    g.append(
+        (
+            "A2.yaw_rotation_adds_to_the_azimuth",
+            fa([a, x, y, z], z3.And(z3.Implies(z3.Or(x != 0, y != 0), z3.ToReal(z3.ToInt((ATAN2(ya, xa) - ATAN2(y, x) - a) / TAU)) == (ATAN2(ya, xa) - ATAN2(y, x) - a) / TAU), z3.Or(xa != 0, ya != 0) == z3.Or(x != 0, y != 0)), [ATAN2(ya, xa)]),
+        )
+    )
+    g = ax.setdefault("rot.euler_action", [])
+    y1, z1 = COS(b) * y - SIN(b) * z, SIN(b) * y + COS(b) * z
+    g.append(
+        (
+            "L-rot.yaw_pitch_is_rz_times_rx",
+            fa([a, b, x, y, z], eq3(A(EULER(a, b, 0), v), (COS(a) * x - SIN(a) * y1, SIN(a) * x + COS(a) * y1, z1)), [AP[0](EULER(a, b, 0), x, y, z), AP[1](EULER(a, b, 0), x, y, z), AP[2](EULER(a, b, 0), x, y, z)]),
+        )
+    )
+    g = ax.setdefault("hypot", [])
+    g.append(("A1.hypot_is_the_nonnegative_root_of_the_sum_of_squares", fa([x, y, z], z3.And(HYP(x, y, z) >= 0, HYP(x, y, z) * HYP(x, y, z) == x * x + y * y + z * z))))
     g = ax.setdefault("asin", [])
     g.append(("A2.asin_of_unit_vector_height", fa([z, h], z3.Implies(z3.And(h >= 0, h * h + z * z == 1), ASIN(z) == ATAN2(z, h)))))
     g.append(("A2.asin_range", fa([z], z3.And(-HALF_PI <= ASIN(z), ASIN(z) <= HALF_PI), [ASIN(z)])))
@@ -257,10 +300,19 @@ def _elementwise(I, sym, a, b):
     return one(a, b)
 
 
+def hyp_term(eng, comps):
+    """hypot as a FUNCTION of its arguments (equal arguments give the same term), with its defining instance assumed"""
+    c = [z3.simplify(rz(x)) for x in comps] + [z3.RealVal(0)] * (3 - len(comps))
+    instance(eng, "A1.hypot_is_the_nonnegative_root_of_the_sum_of_squares", *c)
+    return HYP(*c)
+
+
 def norm_of(I, comps):
     if not any(isinstance(c, SV) for c in comps):
         return math.hypot(*comps)
-    return bm.mhypot(I, *comps)
+    if len(comps) > 3:
+        return bm.mhypot(I, *comps)
+    return sv(hyp_term(I.eng, comps))
 
 
 # ------------------------------------------------------------------------------------------------
@@ -319,6 +371,13 @@ def fresh_rotation(I, name):
     return make_rotation(I, z3.Const(I.eng.fresh_name(name), ROT))
 
 
+SCIPY_ROTATION = "scipy.spatial.transform._rotation:Rotation"  # newer SciPy: a python class (older: compiled, reached through EXTERNAL)
+
+
+def _is_rotation_class(cls):
+    return getattr(cls, "is_rotation_class", False) or getattr(cls, "full", None) == SCIPY_ROTATION
+
+
 def _rotation_class(I):
     from .interp import BuiltinFn
 
@@ -340,6 +399,19 @@ def _rotation_class(I):
     cls = NativeModule(RotationClass.name, {"from_euler": BuiltinFn("Rotation.from_euler", from_euler), "from_rotvec": BuiltinFn("Rotation.from_rotvec", from_rotvec)})
     cls.is_rotation_class = True
     return cls
+
+
+def _scipy_constructor(name):
+    """model for the python-level constructors of newer SciPy (static or class methods of the real class)"""
+
+    def model(I, *args, **kwargs):
+        from .interp import ClassVal
+
+        if args and isinstance(args[0], ClassVal):
+            args = args[1:]
+        return _rotation_class(I).attrs[name].fn(*args, **kwargs)
+
+    return model
 
 
 # ------------------------------------------------------------------------------------------------
@@ -386,10 +458,15 @@ def _math_module(I):
         raise PyvcError("models_geom: base math module not found")
     attrs = dict(base.attrs)
     deg = _rat(180.0) / PI
+    # pi / tau are exact rationals *inside the solver* (SV-wrapped numerals), so that `math.pi / 2` is exactly half of
+    # `math.pi` (python float division followed by decimal re-reading would be off by one ulp): homogeneous in pi.
     attrs.update(
+        pi=SV(PI, True),
+        tau=SV(TAU, True),
         sin=BuiltinFn("sin", lambda a: m_sin(I, a)),
         cos=BuiltinFn("cos", lambda a: m_cos(I, a)),
         atan2=BuiltinFn("atan2", lambda y, x: m_atan2(I, y, x)),
+        hypot=BuiltinFn("hypot", lambda *xs: norm_of(I, xs)),
         asin=BuiltinFn("asin", lambda x: m_asin(I, x)),
         degrees=BuiltinFn("degrees", lambda a: math.degrees(a) if not isinstance(a, SV) else sv(rz(a) * deg)),
         radians=BuiltinFn("radians", lambda a: math.radians(a) if not isinstance(a, SV) else sv(rz(a) / deg)),
@@ -437,7 +514,7 @@ def _numpy_module(I):
     return NativeModule(
         "numpy",
         {
-            "pi": math.pi,
+            "pi": SV(PI, True),
             "array": BuiltinFn("numpy.array", np_array),
             "asarray": BuiltinFn("numpy.asarray", np_array),
             "linalg": linalg,
@@ -505,7 +582,7 @@ def install(reg):
         return NotHandled
 
     def isinst(I, x, cls):
-        if getattr(cls, "is_rotation_class", False):
+        if _is_rotation_class(cls):
             return is_rotation(x)
         if cls is NDARRAY:
             return isinstance(x, NdArr)
@@ -564,6 +641,8 @@ def install(reg):
                 return BuiltinFn("tolist", lambda: PList(obj.items))
         return NotHandled
 
+    for nm in ("from_euler", "from_rotvec"):
+        reg.models[f"{SCIPY_ROTATION}.{nm}"] = _scipy_constructor(nm)
     chain("binop_fallback", binop)
     chain("iterate_fallback", iterate)
     chain("getitem_fallback", getitem)
